@@ -54,10 +54,37 @@ pub fn check(c: &Case) -> CheckResult {
     ok(lens.len() >= 2 || special_pw || dist1, format!("{}|pw:{}|wrong:{}", if lens.len() >= 2 { "multi" } else { "single" }, if c.w.is_empty() { "empty" } else if c.w.len() > 64 { ">64" } else if !c.w.is_ascii() { "non-ascii" } else { "ascii" }, classes.join("+")))
 }
 
+/// The same property at the command line (`kestrel password encrypt|decrypt --env-pass`), data through files or pipes.
+#[derive(Clone, Debug, Serialize, Deserialize)]
+pub struct CliCase { pub plain: Plain, pub pw: String, pub enc_pipe: Option<Vec<u16>>, pub dec_stdout: bool, pub wrong_sel: u64 }
+pub fn check_cli(c: &CliCase) -> CheckResult {
+    use crate::cli::{In, Sandbox};
+    let sb = Sandbox::new(); let p = c.plain.bytes(); sb.write("p.bin", &p);
+    let mut a = vec!["password", "encrypt"]; if c.enc_pipe.is_none() { a.push("p.bin"); } a.extend(["-o", "c.ktl", "--env-pass"]);
+    let mut cmd = sb.cmd(&a).env("KESTREL_PASSWORD", &c.pw); if let Some(sz) = &c.enc_pipe { cmd = cmd.stdin(In::Pipe(p.clone(), super::c01::pieces(sz, p.len()))); }
+    let r = cmd.run(); ensure!(r.code == Some(0), "password encrypt failed: {}", r.describe());
+    let mut a = vec!["password", "decrypt", "c.ktl", "--env-pass"]; if !c.dec_stdout { a.extend(["-o", "out.bin"]); }
+    let r = sb.cmd(&a).env("KESTREL_PASSWORD", &c.pw).run(); ensure!(r.code == Some(0), "password decrypt under the encryption password failed: {}", r.describe());
+    let out = if c.dec_stdout { r.stdout.clone() } else { sb.read("out.bin").ok_or("no plaintext file")? };
+    ensure!(out == p, "command-line password round trip changed the plaintext ({} in, {} out)", p.len(), out.len());
+    // a different password: exit 1, nothing delivered
+    let variants = gen::wrong_passwords(c.pw.as_bytes(), c.wrong_sel);
+    let cand: Vec<&(Vec<u8>, &str)> = variants.iter().filter(|(w, _)| !gen::hmac_equiv(c.pw.as_bytes(), w) && std::str::from_utf8(w).map(|s| !s.contains('\0')).unwrap_or(false)).collect();
+    let mut label = "none";
+    if !cand.is_empty() { let (w2, l) = cand[(c.wrong_sel >> 20) as usize % cand.len()]; label = l;
+        let _ = std::fs::remove_file(sb.path("out.bin"));
+        let r = sb.cmd(&a).env("KESTREL_PASSWORD", std::str::from_utf8(w2).unwrap()).run();
+        ensure!(r.code == Some(1), "password decrypt under a different password (variant {}) exited {:?}", l, r.code);
+        ensure!(r.stdout.is_empty() && sb.read("out.bin").map(|f| f.is_empty()).unwrap_or(true), "plaintext was delivered under a wrong password (variant {})", l); }
+    ok(c.enc_pipe.is_some() || !c.pw.is_ascii() || c.pw.is_empty() || c.pw.len() > 64, format!("cli/{}/wrong:{}", if c.enc_pipe.is_some() { "pipe" } else { "file" }, label))
+}
+
 pub fn run(ctx: &Ctx) {
     set_rule("C02", "(plaintext, password bytes incl. empty / non-UTF-8 / 62..67 bytes / up to 300 bytes, salt, 4 I/O schedules) through pass_encrypt -> pass_decrypt, then decryption under generated wrong passwords (1-bit flip, last byte, strict prefix, appended byte, case change, empty<->non-empty, unrelated) which must fail with zero data written; HMAC-equivalent spellings (w||00, SHA-256(w) for |w|>64) are labelled and only counted. Non-trivial = multi-chunk, or password empty / non-ASCII / >64 bytes, or wrong password at Hamming distance 1; distinct by hash of the case");
     ctx.assume("passwords that are the same HMAC-SHA256 key (RFC 2104 zero padding / pre-hash of keys > 64 bytes) derive the same scrypt key; they are outside the 'other password' quantifier");
     ctx.assume("the shared chunk loop is covered exhaustively for AAD = 65 67 6B 20 by C01 layer B");
     ctx.pbt("pass_roundtrip_wrong", ctx.n(480, 6_000), || strat(if ctx.quick() { 2 } else { 5 }), check);
+    ctx.shrink_iters.store(20, std::sync::atomic::Ordering::Relaxed);
+    ctx.pbt("cli_password_mode", ctx.n(48, 1_000), || (prop_oneof![1 => Just(Plain { len: 0, seed: 0 }), 4 => gen::small_plain(3000), 1 => gen::plain_strategy(200_000)], gen::env_password_strategy(), proptest::option::of(proptest::collection::vec(any::<u16>(), 0..6)), any::<bool>(), any::<u64>()).prop_map(|(plain, pw, enc_pipe, dec_stdout, wrong_sel)| CliCase { plain, pw, enc_pipe, dec_stdout, wrong_sel }), check_cli);
     ctx.put("hmac_equivalent_passwords", serde_json::json!({"behaved_like_w": EQUIV_SAME.load(Ordering::Relaxed), "behaved_differently": EQUIV_DIFF.load(Ordering::Relaxed), "note": "informational; excluded from the must-reject set"}));
 }
